@@ -373,6 +373,7 @@ def run(ctx):
         regex_operands(ctx, forest)
         regex_generated(ctx, forest)
         bracket_units(ctx, forest)
+        regex_classes(ctx)
         regex_refs(ctx)
         fprintf_keeps_file(ctx, forest)
         panic_inventory(ctx)
@@ -643,6 +644,35 @@ def bracket_units(ctx, forest):
                       % (ty, pat, code, len(out), "valid" if valid else "invalid (a class or an equivalence class as an end point of a range, or a symbol of several characters)"),
                       {"property": "C11", "kind": "bracket-units", "regextype": ty, "operand": pat, "valid": valid, "exit": str(code),
                        "stderr": err.decode("utf-8", "replace")[:200], "total_disagreements": len(bad_rows)})
+
+
+def regex_classes(ctx):
+    """check_classes (hook) against the RegexClasses model: every string up to a length bound over the characters the check looks at
+    (with and without classes: emacs has none), the bracket expressions built from units, and longer random ones"""
+    import itertools
+    rng = ctx.rng
+    alpha = ["[", "]", "^", "-", ":", ".", "=", "a", "\\"]
+    pats = []
+    for n in range(0, (6 if ctx.thorough else 5) + 1):
+        for tup in itertools.product(alpha, repeat=n):
+            pats.append("".join(tup))
+    units = ["a", "x-z", "[.b.]", "[=c=]", "[:digit:]", "[:word:]", "[.a.]-c", "a-[.c.]", "!--", "[=a=]-c", "a-[=c=]", "[.ab.]", "[=ab=]", "[", "]", "^", "-", "[:", "[.", "[=", ":]", ".]", "=]",
+             "\\[", "\\]", "\u00e9", "[.\u00e9.]", "[=-=]", "[.].]", "x"]
+    for _ in range(40000 if ctx.thorough else 4000):
+        pats.append("[" + "".join(rng.choice(units) for _ in range(rng.randint(0, 5))) + rng.choice(["]", "]", "", "]x[a]"]))
+    cases = [(p, e) for p in pats for e in ("emacs", "posix-extended")]
+    il = ["rxclasses %s %s" % (e, fw.hexs(p.encode())) for p, e in cases]
+    ml = ["rxclasses %s %s" % (e, ".".join(str(ord(c)) for c in p) if p else "-") for p, e in cases]
+    impl = fw.run_lines(fw.FUV, il)
+    model = fw.run_lines(fw.FUVM, ml)
+    bad = []
+    for (p, e), i, m in zip(cases, impl, model):
+        ctx.count(("classes", p, e), "[" in p, ["bracket-check", "regextype=%s" % e, "ok=%s" % m, "len=%s" % (len(p) if len(p) < 6 else "6+")])
+        if i != m:
+            bad.append((p, e, i, m))
+    for p, e, i, m in bad[:3]:
+        ctx.violation("check_classes(%r, %s): implementation %s, RegexClasses model %s" % (p, e, i, m),
+                      {"property": "C11", "kind": "bracket-check", "pattern": p, "regextype": e, "implementation": i, "model": m, "total_disagreements": len(bad)})
 
 
 def regex_refs(ctx):
